@@ -34,9 +34,9 @@ RULE = (
     "fixtures and with an empty corpus. Oracle: parse(schedule=False) either rejects - a lark error (a VisitError "
     "only if it wraps ValueError), a ValueError from scriptplan/parser, or an error message followed by SystemExit(1) "
     "- or accepts; for accepted input schedule() returns without exception within a CPU-time bound (cases over 20 s "
-    "are re-run alone after the campaign: parsing more than 40 s twice, schedule() not returning within 400 s, or "
-    "needing more than 40 s + 100 us x slots x leaves x scenarios of the horizon it scheduled is a violation, "
-    "anything else is recorded as inconclusive) and every "
+    "are re-run alone after the campaign: parsing more than 40 s twice, or schedule() needing more than 60 s + 5 ms "
+    "x slots x leaves x scenarios of the horizon it scheduled, is a violation; runs that exceed a 400 s budget "
+    "below their allowance are inconclusive) and every "
     "leaf task is scheduled with project start <= start <= end <= effective project end, or unscheduled with a "
     "warning on stderr. Failures are bucketed by (exception type, innermost scriptplan module:function). Non-trivial: "
     "accepted-and-infeasible (>= 1 unscheduled leaf) or rejected after the project header. Distinct = distinct text."
@@ -75,9 +75,10 @@ def guarded_observe(text, limit=CPU_LIMIT):
 TIMEOUT_CANDIDATES = []
 
 
-PARSE_LIMIT = 40.0  # CPU seconds; parsing never depends on the horizon
-HANG_LIMIT = 400.0  # CPU seconds after which a schedule() is called a hang whatever the size
-PER_SLOT_TASK = 100e-6  # allowance per (slot of the effective horizon x leaf task x scenario); measured cost is 5-25 us
+PARSE_LIMIT = 40.0  # CPU seconds; parsing never depends on the horizon (generated texts are a few kB)
+RUN_BUDGET = 400.0  # CPU seconds we are willing to spend on one solitary schedule()
+PER_UNIT = 5e-3  # allowance per (slot of the effective horizon x leaf task x scenario); measured honest cost is
+#                  10 us (plain) to 250 us (a zone name that cannot be resolved is looked up again for every slot)
 
 
 def _under_timer(limit, fn):
@@ -98,10 +99,11 @@ def _under_timer(limit, fn):
 def solitary_verdict(text):
     """Re-run a timeout candidate alone, phase by phase.  -> (violation detail or None, note)
 
-    parse: more than PARSE_LIMIT CPU seconds twice is a violation (the generated texts have <= 12 tasks).
-    schedule: a violation if it does not return within HANG_LIMIT, or if it needed more than
-    40 s + PER_SLOT_TASK x slots x leaf tasks x scenarios of the horizon it actually scheduled - honest projects
-    with a long extended horizon are slow, not stuck."""
+    parse: more than PARSE_LIMIT CPU seconds in two runs is a violation.
+    schedule: judged against an allowance that is linear in the size of what was scheduled,
+    60 s + PER_UNIT x slots of the effective horizon x leaf tasks x scenarios.  Slow-but-proportional projects
+    (a capped multi-year horizon) are never violations; where the allowance exceeds RUN_BUDGET and the run does
+    not finish inside the budget, the case is inconclusive."""
     import contextlib
     import io
 
@@ -109,7 +111,8 @@ def solitary_verdict(text):
         with contextlib.redirect_stderr(io.StringIO()):
             return observe.parser().parse(text, schedule=False)
 
-    for attempt in (1, 2):
+    project = None
+    for _attempt in (1, 2):
         try:
             fin, project, cpu = _under_timer(PARSE_LIMIT, do_parse)
         except BaseException as e:  # noqa: BLE001 - rejected after all (was slow, not stuck)
@@ -123,22 +126,26 @@ def solitary_verdict(text):
         with contextlib.redirect_stderr(io.StringIO()):
             project.schedule()
 
-    try:
-        fin, _v, cpu = _under_timer(HANG_LIMIT, do_schedule)
-    except BaseException as e:  # noqa: BLE001
-        return None, f"re-run alone: schedule raised {type(e).__name__} (inconclusive for the time bound)"
-    if not fin:
-        return f"schedule() did not return within {HANG_LIMIT:.0f} s CPU when re-run alone", ""
-    try:
+    def allowance():
         gran = project.attributes.get("scheduleGranularity", 3600)
         slots = max(1.0, (project["end"] - project["start"]).total_seconds() / gran)
         leaves = sum(1 for t in project.tasks if t.leaf())
-        allowance = 40.0 + PER_SLOT_TASK * slots * max(1, leaves) * max(1, project.scenarioCount())
+        return 60.0 + PER_UNIT * slots * max(1, leaves) * max(1, project.scenarioCount()), slots, leaves
+
+    try:
+        fin, _v, cpu = _under_timer(RUN_BUDGET, do_schedule)
+    except BaseException as e:  # noqa: BLE001
+        return None, f"re-run alone: schedule raised {type(e).__name__} (inconclusive for the time bound)"
+    try:
+        allow, slots, leaves = allowance()  # the horizon is extended at the start of schedule(): known even after a timeout
     except Exception:  # noqa: BLE001
-        allowance = HANG_LIMIT
-    if cpu > allowance:
-        return f"schedule() used {cpu:.0f} s CPU alone; allowance for its size ({slots:.0f} slots, {leaves} leaves) is {allowance:.0f} s", ""
-    return None, f"slow but finished in {cpu:.1f}s CPU when re-run alone (allowance {allowance:.0f}s; inconclusive, not a violation)"
+        return None, "re-run alone: size of the scheduled horizon not available (inconclusive)"
+    if not fin and allow >= RUN_BUDGET:
+        return None, f"not finished within {RUN_BUDGET:.0f}s CPU alone; allowance for {slots:.0f} slots x {leaves} leaves is {allow:.0f}s (inconclusive)"
+    if not fin or cpu > allow:
+        return (f"schedule() used {'more than ' if not fin else ''}{cpu:.0f} s CPU alone; allowance for its size "
+                f"({slots:.0f} slots, {leaves} leaves, {project.scenarioCount()} scenarios) is {allow:.0f} s"), ""
+    return None, f"slow but finished in {cpu:.1f}s CPU when re-run alone (allowance {allow:.0f}s; not a violation)"
 
 
 def confirm_timeouts(out, seed, shard):
@@ -278,8 +285,8 @@ HOSTILE_LINES = [
     "priority 0", "priority 1000", "priority -5", "complete 50", "scheduling alap", "scheduling asap", "note \"x\"",
     "start 2019-01-01", "start 2031-06-01", "end 2019-01-01", "end 2031-06-01", "end 2025-01-07-10:00",
     "limits { dailymax 0h }", "limits { weeklymax 0.1h }", "allocate nosuchres", "responsible r0",
-    "allocate r0 { alternative r1 }", "allocate r1", "allocate r0, r1 { alternative r2 select minloaded }", "allocate r0 { persistent }", "effort 99999999min",
-    "effort 4h", "length 99999999d", "duration 0.5h", "start 2025-01-06-00:07", "end 2025-01-06",
+    "allocate r0 { alternative r1 }", "allocate r1", "allocate r0, r1 { alternative r2 select minloaded }", "allocate r0 { persistent }",
+    "effort 4h", "duration 0.5h", "start 2025-01-06-00:07", "end 2025-01-06",
 ]
 BAD_ZONES = ["Europe/", "Europe//Berlin", "/Europe/Berlin", "../UTC", "zone.tab", "", " ", "Mars/Olympus", "UTC+25", "europe/berlin", "Europe/Berlin\\", "E" * 300]
 HOSTILE_DEP_OPTS = ["gaplength 2d", "gaplength 500h", "maxgapduration 1h", "gapduration 2000h", "onend", "gapduration 0min", "gaplength 0h", "gapduration 99999999h",
